@@ -91,9 +91,9 @@ func C14(c *core.Ctx) {
 	type cfgPair struct{ a, b fatCfg }
 	const MiB = 1 << 20
 	pairs := []cfgPair{
-		{fatCfg{Kind: "fat12", Size: 8192, Start: 0, Names: "plain", Repro: true}, fatCfg{Kind: "fat12", Size: 8192, Start: MiB, Names: "plain", Repro: true}},
+		{fatCfg{Kind: "fat12", Size: 8192, Start: 0, Names: "plain", Repro: true}, fatCfg{Kind: "fat12", Size: 8192, Start: MiB + 34*512, Names: "plain", Repro: true}}, // first usable sector of a GPT: not 4 KiB / 16 KiB aligned
 		{fatCfg{Kind: "fat16", Size: 5 * MiB, Start: 512, Names: "tricky", Repro: true}, fatCfg{Kind: "fat16", Size: 5 * MiB, Start: 0, Names: "tricky", Repro: true}},
-		{fatCfg{Kind: "fat32", Size: 51200, Start: 0, Names: "tricky", Repro: true}, fatCfg{Kind: "fat32", Size: 51200, Start: 5 << 30, Names: "tricky", Repro: true}},
+		{fatCfg{Kind: "fat32", Size: 51200, Start: 0, Names: "tricky", Repro: true}, fatCfg{Kind: "fat32", Size: 51200, Start: 5<<30 + 63*512, Names: "tricky", Repro: true}}, // legacy MBR alignment (sector 63) beyond 4 GiB
 	}
 	if c.Tier == "thorough" {
 		pairs = append(pairs, cfgPair{fatCfg{Kind: "fat12", Size: 1474560, Start: 0, Names: "tricky", Repro: true}, fatCfg{Kind: "fat12", Size: 1474560, Start: 4096, Names: "tricky", Repro: true}},
